@@ -3,6 +3,7 @@
 use serde_json::{Value, json};
 
 use crate::cs;
+use crate::fmt06;
 use crate::damage::{self, Action, Damage, Subject};
 use crate::history::{StepKind, World};
 use crate::props::c02::headless_bands;
@@ -56,19 +57,34 @@ fn healthy_history(run: &Run, case: u64) {
     run.sample(|| json!({"healthy_case": case, "history": descs}));
 }
 
-/// Does some complete version no longer restore exactly?
-fn harmful(s: &Subject, arch: &std::path::Path) -> Option<String> {
-    for b in &s.complete {
+/// Does some version no longer restore as it did before the damage? Complete versions must
+/// restore cleanly and exactly; an interrupted version (with header) is compared with its own
+/// pre-damage restore, which may already have reported errors for entries without a directory.
+fn harmful(s: &Subject, arch: &std::path::Path, base_errors: &std::collections::BTreeMap<u32, usize>, d: &Damage) -> Option<String> {
+    // the last hunk of an incomplete band can vanish (or be emptied) without any trace in the
+    // format: that state is what an earlier interruption leaves
+    let raw = fmt06::read_archive(&s.world.arch, false);
+    let traceless = matches!(d.action, Action::Delete | Action::Truncate0)
+        && raw.bands.iter().any(|(id, b)| {
+            !s.complete.contains(id)
+                && b.hunks.keys().max().map(|m| d.relpath == format!("{}/{}", fmt06::band_dirname(*id), fmt06::hunk_relpath(*m))).unwrap_or(false)
+        });
+    for b in &s.bands {
+        let complete = s.complete.contains(b);
+        if !complete && traceless {
+            continue;
+        }
         let dest = s.world.sc.fresh("h");
         let out = damage::restore_outcome(arch, *b, &dest);
+        let kind = if complete { "" } else { "interrupted " };
         let verdict = if out.panic.is_some() || !out.ok() {
-            Some(format!("restore of b{b:04} fails: {}", out.describe()))
-        } else if !out.errors.is_empty() {
-            Some(format!("restore of b{b:04} reports errors: {}", out.describe()))
+            Some(format!("restore of {kind}b{b:04} fails: {}", out.describe()))
+        } else if out.errors.len() > base_errors.get(b).copied().unwrap_or(0) {
+            Some(format!("restore of {kind}b{b:04} reports errors: {}", out.describe()))
         } else {
             let actual = tree::snapshot(&dest).expect("snapshot");
             let d = tree::diff_snapshots(&s.expected[b], &actual, &CmpOpts::default());
-            if d.is_empty() { None } else { Some(format!("restore of b{b:04} silently differs: {}", d[0].1)) }
+            if d.is_empty() { None } else { Some(format!("restore of {kind}b{b:04} silently differs: {}", d[0].1)) }
         };
         crate::scratch::rm(&dest);
         if verdict.is_some() {
@@ -78,13 +94,13 @@ fn harmful(s: &Subject, arch: &std::path::Path) -> Option<String> {
     None
 }
 
-fn one_damage(run: &Run, s: &Subject, case: u64, di: usize, d: &Damage) {
+fn one_damage(run: &Run, s: &Subject, base_errors: &std::collections::BTreeMap<u32, usize>, case: u64, di: usize, d: &Damage) {
     let arch = damage::damaged_copy(s, d, run.seed);
     run.eval();
     run.count("damages_applied", 1);
     run.observe("damage_classes", d.class());
     let replay = json!({"case": case, "damage_index": di, "damage": d.desc(), "history": s.desc});
-    let harm = harmful(s, &arch);
+    let harm = harmful(s, &arch, base_errors, d);
     if let Some(why) = &harm {
         run.count("harmful_damages", 1);
         run.nontrivial(fnv(format!("{case}|{}", d.desc()).as_bytes()));
@@ -134,6 +150,16 @@ pub fn run(tier: Tier, replay: Option<Value>) -> i32 {
             }
             let s = damage::build_subject(run.seed, case, "c09");
             let damages = damage::all_damages(&s.world.arch, false, 8);
+            let base_errors: std::collections::BTreeMap<u32, usize> = s
+                .bands
+                .iter()
+                .map(|b| {
+                    let dest = s.world.sc.fresh("b");
+                    let out = damage::restore_outcome(&s.world.arch, *b, &dest);
+                    crate::scratch::rm(&dest);
+                    (*b, out.errors.len())
+                })
+                .collect();
             run.count("damaged_archives", 1);
             run.sample(|| json!({"case": case, "history": s.desc, "bands": s.bands, "complete": s.complete, "damages": damages.len()}));
             let only = replay.as_ref().and_then(|r| r.get("damage_index")).and_then(|d| d.as_u64()).map(|d| d as usize);
@@ -152,7 +178,7 @@ pub fn run(tier: Tier, replay: Option<Value>) -> i32 {
                             run.count("damages_skipped_by_time_budget", 1);
                             continue;
                         }
-                        if let Err(m) = crate::report::guard(|| one_damage(&run, &s, case, i, &damages[i])) {
+                        if let Err(m) = crate::report::guard(|| one_damage(&run, &s, &base_errors, case, i, &damages[i])) {
                             run.inconclusive(format!("harness error: {m}"));
                         }
                     });
@@ -164,8 +190,8 @@ pub fn run(tier: Tier, replay: Option<Value>) -> i32 {
         &[("healthy_validations", 100), ("healthy_states_with_interrupted_band", 3), ("damages_applied", 200), ("harmful_damages", 50), ("harmless_damages", 5)]
     };
     run.finish(
-        "healthy side: histories as in C02 (completed and interrupted-with-header backups, deletes, gcs; states with a head-less band directory skipped); after every archive-changing step full and quick validation must return Ok and report nothing. Damage side: archives with 2-4 bands (complete, interrupted in the middle, interrupted newest) sharing blocks; EVERY file except CONSERVE x {delete (not for BANDTAIL), truncate to 0, truncate to half, overwrite with seeded garbage} and 8 seeded bit flips per block; a damage is harmful when some complete version's restore by id fails, reports an error or differs from its pre-damage result; every harmful damage must make full validation report >= 1 error, and every harmful deletion quick validation too. Distinct = (archive, damaged file, action) that is harmful.",
-        &["'version' on the damage side means complete version (the last hunk of an incomplete band can vanish without any format-level trace)", "E1 walker decides 'restores exactly'"],
+        "healthy side: histories as in C02 (completed and interrupted-with-header backups, deletes, gcs; states with a head-less band directory skipped); after every archive-changing step full and quick validation must return Ok and report nothing. Damage side: archives with 2-4 bands (complete, interrupted in the middle, interrupted newest) sharing blocks; EVERY file except CONSERVE x {delete (not for BANDTAIL), truncate to 0, truncate to half, overwrite with seeded garbage} and 8 seeded bit flips per block; a damage is harmful when some version's restore by id fails, reports (more) errors or differs from its pre-damage result (interrupted versions with a header included; only the vanished or emptied last hunk of an interrupted band is exempt, because that state is exactly what an interruption leaves); every harmful damage must make full validation report >= 1 error, and every harmful deletion quick validation too. Distinct = (archive, damaged file, action) that is harmful.",
+        &["the last hunk of an incomplete band can vanish without any format-level trace: exempt", "E1 walker decides 'restores exactly'"],
         Some(true),
         needs,
     )
